@@ -156,9 +156,7 @@ func DefFlavor(
 	for _, fname := range inherit {
 		if cf := allFlavors[strings.ToLower(fname)]; cf != nil && !cf.Final {
 			nf.inheritFlavor(cf)
-			if nf.defaultHandler == nil {
-				nf.defaultHandler = cf.defaultHandler
-			}
+			nf.inheritHandler(cf)
 		} else {
 			slip.ClassNotFoundPanic(s, 0, slip.Symbol(fname), "%s is not a defined flavor.", fname)
 		}
@@ -210,11 +208,26 @@ func DefFlavor(
 	return nf
 }
 
+// inheritHandler takes the default handler of a component or included flavor
+// unless the flavor already has one: the handler comes from the first flavor,
+// in the order written, that has one of its own or inherited one.
+func (obj *Flavor) inheritHandler(cf *Flavor) {
+	if obj.defaultHandler != nil {
+		if _, isDef := obj.defaultHandler.(defHand); !isDef {
+			return
+		}
+	}
+	if _, isDef := cf.defaultHandler.(defHand); cf.defaultHandler != nil && !isDef {
+		obj.defaultHandler = cf.defaultHandler
+	}
+}
+
 func addIncludes(nf *Flavor) {
 	for _, fn := range nf.included {
 		if !nf.inheritsFlavor(fn) {
 			if cf := allFlavors[strings.ToLower(fn)]; cf != nil {
 				nf.inheritFlavor(cf)
+				nf.inheritHandler(cf)
 			} else {
 				slip.ClassNotFoundPanic(slip.NewScope(), 0, slip.Symbol(fn), "%s is not a defined flavor.", fn)
 			}
@@ -226,6 +239,7 @@ func addIncludes(nf *Flavor) {
 			if !nf.inheritsFlavor(fn) {
 				if cf := allFlavors[strings.ToLower(fn)]; cf != nil {
 					nf.inheritFlavor(cf)
+					nf.inheritHandler(cf)
 				} else {
 					slip.ClassNotFoundPanic(slip.NewScope(), 0, slip.Symbol(fn), "%s is not a defined flavor.", fn)
 				}
